@@ -1,18 +1,659 @@
+// C02 metamorphic part: a program over a larger JavaScript subset is generated together with its
+// rewritten twin (exactly one rewrite kind of the catalogue active per case); both are run in fresh
+// runtimes and their observations must be identical.
 package main
 
-import "verifharness/vh"
+import (
+	"fmt"
+	"math"
+	"strings"
+	"time"
+
+	"github.com/dop251/goja"
+	"verifharness/vh"
+)
 
 type MetaCase struct {
-	Kind    string   `json:"kind"`
+	Kind    string   `json:"kind"` // "meta"
 	Rewrite string   `json:"rw"`
 	Strict  bool     `json:"strict"`
-	Place   string   `json:"place"`
+	Place   string   `json:"place"` // global function eval
 	A       string   `json:"a"`
 	B       string   `json:"b"`
 	Feat    []string `json:"feat,omitempty"`
 }
 
-func genMeta(r *vh.Rng, tier string) MetaCase { return MetaCase{Kind: "meta", A: "1", B: "1"} }
+var rewriteKinds = []string{"const2var", "capture", "evalvis", "withvis", "stmtpos_comma", "stmtpos_void", "stmtpos_var",
+	"deadcode", "deadcode_afterreturn", "wrap_block", "wrap_iife", "tostring_eval"}
+
+// P is a piece of source in its original (A) and rewritten (B) form.
+type P struct{ A, B string }
+
+func lit(s string) P { return P{s, s} }
+func cat(ps ...P) P {
+	var a, b strings.Builder
+	for _, p := range ps {
+		a.WriteString(p.A)
+		b.WriteString(p.B)
+	}
+	return P{a.String(), b.String()}
+}
+
+type mgen struct {
+	r       *vh.Rng
+	rw      string
+	strict  bool
+	n       int      // fresh name counter
+	vars    []string // visible mutable variables (numbers/strings)
+	funcs   []string // visible callable names
+	predecl []string // B only: declarations hoisted to the top (const2var)
+	feat    map[string]bool
+	sites   int // number of rewrite sites actually rewritten
+	depth   int
+	inFunc  bool
+}
+
+func (g *mgen) fresh(p string) string { g.n++; return fmt.Sprintf("%s%d", p, g.n) }
+func (g *mgen) on(kind string) bool {
+	if g.rw == kind && g.r.Chance(70) {
+		g.sites++
+		return true
+	}
+	return false
+}
+
+// a literal: the const2var site
+func (g *mgen) literal() P {
+	var s string
+	switch g.r.Pick(50, 15, 10, 8, 8, 9) {
+	case 0:
+		s = fmt.Sprint(g.r.Intn(9) - 2)
+		if s[0] == '-' {
+			s = "(" + s + ")"
+		}
+	case 1:
+		s = []string{`"2"`, `"x"`, `""`, `"10"`}[g.r.Intn(4)]
+	case 2:
+		s = []string{"true", "false"}[g.r.Intn(2)]
+	case 3:
+		s = "undefined"
+	case 4:
+		s = "null"
+	default:
+		s = []string{"1.5", "0", "1e3", "255"}[g.r.Intn(4)]
+	}
+	if s != "undefined" && g.on("const2var") {
+		k := g.fresh("k")
+		g.predecl = append(g.predecl, "const "+k+" = "+s+";")
+		return P{s, k}
+	}
+	return lit(s)
+}
+
+func (g *mgen) anyVar() string {
+	if len(g.vars) == 0 {
+		return "undefinedVar0"
+	}
+	return g.vars[g.r.Intn(len(g.vars))]
+}
+
+func (g *mgen) expr(d int) P {
+	if d <= 0 {
+		if g.r.Chance(50) && len(g.vars) > 0 {
+			return lit(g.anyVar())
+		}
+		return g.literal()
+	}
+	var e P
+	switch g.r.Pick(14, 14, 20, 6, 6, 6, 8, 6, 6, 4, 4) {
+	case 0:
+		return g.literal()
+	case 1:
+		return lit(g.anyVar())
+	case 2:
+		op := []string{"+", "-", "*", "<", "===", "==", "%", "|", "&&", "||", ">", "!=="}[g.r.Intn(12)]
+		e = cat(lit("("), g.expr(d-1), lit(" "+op+" "), g.expr(d-1), lit(")"))
+	case 3:
+		e = cat(lit("("), g.expr(d-1), lit(" ? "), g.expr(d-1), lit(" : "), g.expr(d-1), lit(")"))
+	case 4:
+		e = cat(lit("(typeof "), lit(g.anyVar()), lit(")"))
+	case 5:
+		if len(g.vars) > 0 {
+			e = cat(lit("("+g.anyVar()+" = "), g.expr(d-1), lit(")"))
+		} else {
+			return g.literal()
+		}
+	case 6:
+		if len(g.funcs) > 0 {
+			g.feat["call"] = true
+			e = cat(lit(g.funcs[g.r.Intn(len(g.funcs))]+"("), g.expr(d-1), lit(", "), g.expr(d-1), lit(")"))
+		} else {
+			return g.literal()
+		}
+	case 7:
+		if len(g.vars) > 0 {
+			v := g.anyVar()
+			e = lit([]string{"(" + v + "++)", "(++" + v + ")", "(" + v + "--)", "(" + v + " += 1)"}[g.r.Intn(4)])
+		} else {
+			return g.literal()
+		}
+	case 8:
+		e = cat(lit("("), g.literal(), lit([]string{" && ", " || ", " ?? "}[g.r.Intn(3)]), g.expr(d-1), lit(")"))
+		g.feat["const_logical"] = true
+	case 9:
+		e = cat(lit("("), g.expr(d-1), lit(", "), g.expr(d-1), lit(")"))
+	default:
+		e = cat(lit("[" ), g.expr(d-1), lit(", "), g.expr(d-1), lit("].length"))
+	}
+	if g.on("wrap_iife") {
+		if g.r.Bool() {
+			return cat(lit("(() => "), e, lit(")()"))
+		}
+		return cat(lit("(function () { return "), e, lit("; })()"))
+	}
+	return e
+}
+
+func (g *mgen) logStmt() P {
+	return cat(lit("log("), g.expr(2), lit("); "))
+}
+
+// an expression statement evaluated for its effect: the expression/statement-position site
+func (g *mgen) effectStmt() P {
+	var e P
+	v := g.anyVar()
+	switch g.r.Pick(30, 15, 15, 10, 10, 10, 10) {
+	case 0:
+		e = lit([]string{v + "++", "++" + v, v + "--", "--" + v}[g.r.Intn(4)])
+		g.feat["stmt_incdec"] = true
+	case 1:
+		e = cat(lit(v+" = "), g.expr(2))
+	case 2:
+		e = cat(lit(v+[]string{" += ", " -= ", " *= "}[g.r.Intn(3)]), g.expr(1))
+	case 3:
+		e = cat(g.literal(), lit([]string{" && ", " || "}[g.r.Intn(2)]), lit("("+v+"++)"))
+		g.feat["const_logical"] = true
+	case 4:
+		e = cat(g.expr(1), lit(" ? "+v+"++ : "+v+"--"))
+	case 5:
+		e = cat(lit(v+"++, "), g.expr(1))
+	default:
+		if len(g.funcs) > 0 {
+			e = cat(lit(g.funcs[g.r.Intn(len(g.funcs))]+"("), g.expr(1), lit(")"))
+		} else {
+			e = lit(v + "++")
+		}
+	}
+	switch {
+	case g.on("stmtpos_comma"):
+		return cat(lit("("), e, lit(", 0); "))
+	case g.on("stmtpos_void"):
+		return cat(lit("void ("), e, lit("); "))
+	case g.on("stmtpos_var"):
+		t := g.fresh("tmp")
+		return P{e.A + "; ", "var " + t + " = (" + e.B + "); "}
+	}
+	return cat(e, lit("; "))
+}
+
+func (g *mgen) dead() P {
+	if !g.on("deadcode") {
+		return lit("")
+	}
+	z := g.fresh("zz")
+	return P{"", []string{
+		`if (false) { log("dead"); let ` + z + ` = 1; } `,
+		`while (false) { log("dead"); } `,
+		`false && log("dead"); `,
+		`true || log("dead"); `,
+		`0 ? log("dead") : 0; `,
+		`for (; false; ) { log("dead"); } `,
+		`if (true) { } else { log("dead"); } `,
+	}[g.r.Intn(7)]}
+}
+
+// wrap a statement list without escaping declarations: block / with sites
+func (g *mgen) region(body P) P {
+	switch {
+	case g.on("wrap_block"):
+		return cat(lit("{ "), body, lit("} "))
+	case !g.strict && g.on("withvis"):
+		return cat(lit("with ({}) { "), body, lit("} "))
+	}
+	return body
+}
+
+func (g *mgen) declare(kind string, init P) P {
+	x := g.fresh([]string{"a", "b", "c", "d"}[g.r.Intn(4)])
+	s := cat(lit(kind+" "+x+" = "), init, lit("; "))
+	if kind != "const" {
+		g.vars = append(g.vars, x)
+	}
+	if g.on("capture") {
+		c := []string{"(function () { return " + x + "; }); ", "(() => " + x + "); ", "(function () { " + x + "; }); "}[g.r.Intn(3)]
+		s = cat(s, P{"", c})
+	}
+	return s
+}
+
+func (g *mgen) funcBody(params []string) P {
+	saveV, saveF, saveIn := g.vars, g.funcs, g.inFunc
+	g.vars = append(append([]string{}, g.vars...), params...)
+	g.inFunc = true
+	var parts []P
+	if g.on("evalvis") {
+		parts = append(parts, P{"", `eval(""); `})
+	}
+	parts = append(parts, g.stmts(1+g.r.Intn(3)))
+	ret := cat(lit("return "), g.expr(2), lit("; "))
+	if g.on("deadcode_afterreturn") {
+		ret = cat(ret, P{"", `log("dead"); `})
+	}
+	parts = append(parts, ret)
+	g.vars, g.funcs, g.inFunc = saveV, saveF, saveIn
+	return cat(parts...)
+}
+
+// a function value: named function expression (tostring_eval site) or arrow
+func (g *mgen) funcValue() (P, string) {
+	name := g.fresh("fn")
+	p1, p2 := g.fresh("p"), g.fresh("q")
+	params := p1 + ", " + p2
+	switch g.r.Pick(50, 20, 15, 15) {
+	case 1:
+		params = p1 + ", " + p2 + " = 3"
+		g.feat["default_param"] = true
+	case 2:
+		params = p1 + ", ..." + p2
+		g.feat["rest_param"] = true
+	case 3:
+		params = "[" + p1 + ", " + p2 + " = 2]"
+		g.feat["destructuring_param"] = true
+	}
+	body := g.funcBody([]string{p1, p2})
+	if g.r.Chance(30) {
+		return cat(lit("(("+params+") => { "), body, lit("})")), name
+	}
+	f := cat(lit("function "+name+"("+params+") { "), body, lit("}"))
+	if g.on("tostring_eval") {
+		return P{"(" + f.A + ")", `eval("(" + (` + f.B + `).toString() + ")")`}, name
+	}
+	return cat(lit("("), f, lit(")")), name
+}
+
+func (g *mgen) stmts(n int) P {
+	var parts []P
+	for i := 0; i < n; i++ {
+		parts = append(parts, g.dead(), g.stmt())
+	}
+	return cat(parts...)
+}
+
+func (g *mgen) stmt() P {
+	g.depth++
+	defer func() { g.depth-- }()
+	if g.depth > 3 {
+		if g.r.Bool() {
+			return g.logStmt()
+		}
+		return g.effectStmt()
+	}
+	switch g.r.Pick(16, 18, 10, 7, 8, 4, 4, 5, 5, 6, 4, 4, 5, 4) {
+	case 0:
+		return g.logStmt()
+	case 1:
+		return g.effectStmt()
+	case 2:
+		kind := []string{"var", "let", "let", "const"}[g.r.Intn(4)]
+		if g.r.Chance(4) {
+			return g.declare(kind, lit(`"2"`))
+		}
+		return g.declare(kind, g.expr(2))
+	case 3:
+		g.feat["if"] = true
+		saveV := g.vars
+		a := g.stmts(1 + g.r.Intn(2))
+		g.vars = saveV
+		b := g.stmts(g.r.Intn(2))
+		g.vars = saveV
+		return g.region(cat(lit("if ("), g.expr(2), lit(") { "), a, lit("} else { "), b, lit("} ")))
+	case 4:
+		// per-iteration bindings captured by closures
+		g.feat["for_let_closure"] = true
+		i, fs := g.fresh("i"), g.fresh("fs")
+		saveV := g.vars
+		body := cat(lit("log("+i+"); "), g.stmts(1+g.r.Intn(2)))
+		g.vars = saveV
+		upd := []string{i + "++", "++" + i, i + " += 1"}[g.r.Intn(3)]
+		return cat(lit("var "+fs+" = []; for (let "+i+" = 0; "+i+" < "), g.literal2(2, 4), lit("; "+upd+") { "),
+			lit(fs+".push(() => "+i+"); "), body, lit(fs+".push(function () { return "+i+" * 10; }); } "),
+			lit(fs+".forEach(function (h) { log(h()); }); "))
+	case 5:
+		g.feat["for_of"] = true
+		v := g.fresh("e")
+		saveV := g.vars
+		body := g.stmts(1)
+		g.vars = saveV
+		kw := []string{"const", "let", "var"}[g.r.Intn(3)]
+		return g.region(cat(lit("for ("+kw+" "+v+" of ["), g.expr(1), lit(", "), g.expr(1), lit(", "), g.literal(), lit("]) { log("+v+"); "), body, lit("} ")))
+	case 6:
+		g.feat["for_in"] = true
+		v := g.fresh("key")
+		return g.region(cat(lit("for (var "+v+" in { p: 1, q: "), g.expr(1), lit(", r: 3 }) { log("+v+"); "), g.stmts(1), lit("} ")))
+	case 7:
+		g.feat["while"] = true
+		w := g.fresh("w")
+		saveV := g.vars
+		body := g.stmts(1 + g.r.Intn(2))
+		g.vars = saveV
+		if g.r.Bool() {
+			return cat(lit("let "+w+" = 0; "), g.region(cat(lit("while ("+w+" < "), g.literal2(1, 3), lit(") { "+w+"++; "), body, lit("} "))))
+		}
+		return cat(lit("let "+w+" = 0; "), g.region(cat(lit("do { "+w+"++; "), body, lit("} while ("+w+" < "), g.literal2(1, 3), lit("); "))))
+	case 8:
+		g.feat["label"] = true
+		l, i, j := g.fresh("L"), g.fresh("i"), g.fresh("j")
+		saveV := g.vars
+		body := g.stmts(1)
+		g.vars = saveV
+		return cat(lit(l+": for (let "+i+" = 0; "+i+" < 3; "+i+"++) { for (let "+j+" = 0; "+j+" < 3; "+j+"++) { if ("+j+" === "), g.literal2(1, 2),
+			lit(") continue "+l+"; if ("+i+" === 2) break "+l+"; log("+i+" * 10 + "+j+"); "), body, lit("} } "))
+	case 9:
+		g.feat["switch"] = true
+		saveV := g.vars
+		a, b := g.stmts(1), g.stmts(1)
+		g.vars = saveV
+		return g.region(cat(lit("switch ("), g.expr(1), lit(") { case 1: "), a, lit("case "), g.literal(), lit(": "), b, lit("break; case \"2\": log(\"two\"); default: log(\"dflt\"); } ")))
+	case 10:
+		g.feat["try"] = true
+		saveV := g.vars
+		a := g.stmts(1 + g.r.Intn(2))
+		g.vars = saveV
+		thr := lit("")
+		switch g.r.Pick(40, 20, 20, 20) {
+		case 1:
+			thr = cat(lit("throw "), g.expr(1), lit("; "))
+		case 2:
+			thr = lit("undefinedFn0(); ")
+		case 3:
+			thr = lit("null.x; ")
+		}
+		e := g.fresh("err")
+		c := g.stmts(1)
+		g.vars = saveV
+		f := g.stmts(1)
+		g.vars = saveV
+		return cat(lit("try { "), a, thr, lit("} catch ("+e+") { log("+e+" instanceof ReferenceError ? \"RE\" : "+e+" instanceof TypeError ? \"TE\" : "+e+"); "), c, lit("} finally { "), f, lit("} "))
+	case 11:
+		g.feat["destructuring"] = true
+		p, q, rs := g.fresh("a"), g.fresh("b"), g.fresh("rs")
+		m, z := g.fresh("c"), g.fresh("d")
+		g.vars = append(g.vars, p, q, m, z)
+		return cat(lit("let ["+p+", "+q+" = "), g.literal(), lit(", ..."+rs+"] = ["), g.expr(1), lit(", undefined, 3, 4]; let { m: "+m+", n: { z: "+z+" } = { z: "), g.literal(),
+			lit(" } } = { m: "), g.expr(1), lit(" }; log("+rs+".length); "))
+	case 12:
+		g.feat["accessor"] = true
+		o := g.fresh("o")
+		return cat(lit("var "+o+" = { _v: "), g.literal(), lit(", get v() { log(\"get\"); return this._v; }, set v(x) { log(\"set\"); this._v = x; } }; "),
+			P{o + ".v++; ", func() string {
+				switch {
+				case g.on("stmtpos_comma"):
+					return "(" + o + ".v++, 0); "
+				case g.on("stmtpos_void"):
+					return "void " + o + ".v++; "
+				}
+				return o + ".v++; "
+			}()}, lit(o+".v += 2; log("+o+"._v); "))
+	case 13:
+		g.feat["class"] = true
+		c, d := g.fresh("C"), g.fresh("D")
+		return cat(lit("class "+c+" { constructor(x) { this.x = x; } m() { return this.x + "), g.literal(), lit("; } static s() { return 7; } get g() { return this.x * 2; } } "),
+			lit("class "+d+" extends "+c+" { m() { return super.m() * 2; } } log(new "+d+"("), g.expr(1), lit(").m()); log("+c+".s() + new "+c+"(1).g); "))
+	default:
+		fv, _ := g.funcValue()
+		x := g.fresh("f")
+		kw := []string{"var", "let", "const"}[g.r.Intn(3)]
+		s := cat(lit(kw+" "+x+" = "), fv, lit("; "))
+		g.funcs = append(g.funcs, x)
+		g.feat["closure"] = true
+		return s
+	}
+}
+
+// a small positive integer literal used as a loop bound (kept a const2var site)
+func (g *mgen) literal2(lo, hi int) P {
+	s := fmt.Sprint(lo + g.r.Intn(hi-lo+1))
+	if g.on("const2var") {
+		k := g.fresh("k")
+		g.predecl = append(g.predecl, "const "+k+" = "+s+";")
+		return P{s, k}
+	}
+	return lit(s)
+}
+
+func genMeta(r *vh.Rng, tier string) MetaCase {
+	for {
+		g := &mgen{r: r, feat: map[string]bool{}}
+		g.rw = rewriteKinds[r.Intn(len(rewriteKinds))]
+		g.strict = r.Bool()
+		if g.rw == "withvis" {
+			g.strict = false
+		}
+		place := []string{"global", "function", "eval"}[r.Intn(3)]
+		var parts []P
+		if g.on("evalvis") {
+			parts = append(parts, P{"", `eval(""); `})
+		}
+		// a counter-making closure and two or three variables are always present
+		first := lit("1")
+		if r.Chance(12) {
+			first = lit(`"2"`)
+		}
+		parts = append(parts, g.declare("var", first), g.declare("let", g.literal()), g.declare("var", g.expr(1)))
+		fv, _ := g.funcValue()
+		f0 := g.fresh("f")
+		parts = append(parts, cat(lit("var "+f0+" = "), fv, lit("; ")))
+		g.funcs = append(g.funcs, f0)
+		parts = append(parts, g.stmts(4+r.Intn(8)))
+		for _, v := range g.vars {
+			if r.Chance(50) {
+				parts = append(parts, lit("log("+v+"); "))
+			}
+		}
+		body := cat(parts...)
+		if g.sites == 0 {
+			continue
+		}
+		final := g.expr(1)
+		pre := strings.Join(g.predecl, " ")
+		wrap := func(src, pre, fin string) string {
+			dir := ""
+			if g.strict {
+				dir = `"use strict"; `
+			}
+			switch place {
+			case "global":
+				return dir + pre + " " + src + fin + ";"
+			case "function":
+				return "(function () { " + dir + pre + " " + src + "return " + fin + "; })();"
+			default:
+				return dir + "eval(" + fmt.Sprintf("%q", dir+pre+" "+src+fin+";") + ");"
+			}
+		}
+		var feats []string
+		for k := range g.feat {
+			feats = append(feats, k)
+		}
+		return MetaCase{Kind: "meta", Rewrite: g.rw, Strict: g.strict, Place: place,
+			A: wrap(body.A, "", final.A), B: wrap(body.B, pre, final.B), Feat: feats}
+	}
+}
+
+// ---------------------------------------------------------------------------------------------
+
+func zlist(xs ...int64) string {
+	s := make([]string, len(xs))
+	for i, x := range xs {
+		s[i] = vh.CoqZ(x)
+	}
+	return vh.CoqList(s)
+}
+
+func encodeMeta(rt *goja.Runtime, v goja.Value, canon bool) []int64 {
+	if v == nil || goja.IsUndefined(v) {
+		return []int64{0}
+	}
+	if goja.IsNull(v) {
+		return []int64{1}
+	}
+	b2i := func(b bool) int64 {
+		if b {
+			return 1
+		}
+		return 0
+	}
+	switch x := v.Export().(type) {
+	case bool:
+		return []int64{2, b2i(x)}
+	case int64:
+		bits := math.Float64bits(float64(x))
+		return []int64{3, int64(bits >> 32), int64(bits & 0xffffffff), b2i(canon)}
+	case float64:
+		if math.IsNaN(x) {
+			return []int64{3, -1, -1, 1}
+		}
+		bits := math.Float64bits(x)
+		if x == 0 {
+			bits = 0 // -0 and +0 are told apart only by 1/x and Object.is, which the programs do not use
+		}
+		return []int64{3, int64(bits >> 32), int64(bits & 0xffffffff), b2i(canon)}
+	case string:
+		out := []int64{4}
+		for i, c := range []rune(x) {
+			if i >= 48 {
+				out = append(out, -int64(len(x)))
+				break
+			}
+			out = append(out, int64(c))
+		}
+		return out
+	}
+	if o, ok := v.(*goja.Object); ok {
+		if _, isf := goja.AssertFunction(o); isf {
+			return []int64{5}
+		}
+		for i, ctor := range []string{"TypeError", "RangeError", "SyntaxError", "ReferenceError", "EvalError", "Error"} {
+			if c := rt.Get(ctor); c != nil {
+				if proto := c.ToObject(rt).Get("prototype"); proto != nil && o.Prototype() == proto.ToObject(rt) {
+					return []int64{7, int64(i + 1)}
+				}
+			}
+		}
+		if o.ClassName() == "Array" {
+			return []int64{7, 10, o.Get("length").ToInteger()}
+		}
+		return []int64{7, 11}
+	}
+	return []int64{8}
+}
+
+func runOne(src string) (toks [][]int64, text string, sig string) {
+	var rt *goja.Runtime
+	var txt []string
+	rt = newRuntime(func(v goja.Value, canon bool) {
+		e := encodeMeta(rt, v, canon)
+		toks = append(toks, append([]int64{1}, e...))
+		if len(txt) < 30 {
+			txt = append(txt, fmt.Sprint(e))
+		}
+	})
+	canonFn, _ := goja.AssertFunction(rt.Get("__c02canon"))
+	canonOf := func(v goja.Value) bool {
+		if r, err := canonFn(goja.Undefined(), v); err == nil {
+			return r.ToBoolean()
+		}
+		return true
+	}
+	prg, err := goja.Compile("", src, false)
+	if err != nil {
+		toks = append(toks, []int64{8})
+		return toks, "compile error: " + err.Error(), "none"
+	}
+	sig = goja.VerifC02CodeSig(prg)
+	timer := time.AfterFunc(2*time.Second, func() { rt.Interrupt("timeout") })
+	v, err := rt.RunProgram(prg)
+	timer.Stop()
+	if err != nil {
+		switch ex := err.(type) {
+		case *goja.Exception:
+			pv := ex.Value()
+			toks = append(toks, append([]int64{3}, encodeMeta(rt, pv, canonOf(pv))...))
+			txt = append(txt, "throw")
+		case *goja.InterruptedError:
+			toks = append(toks, []int64{9, 1})
+			txt = append(txt, "interrupted")
+		default:
+			toks = append(toks, []int64{9, 2})
+			txt = append(txt, fmt.Sprintf("goerror %T", err))
+		}
+	} else {
+		toks = append(toks, append([]int64{2}, encodeMeta(rt, v, canonOf(v))...))
+	}
+	return toks, strings.Join(txt, " "), sig
+}
+
+// coqToks renders the event list compactly: one [kind; hash of the value encoding without the canonical
+// bit; canonical bit] triple per event (Coq compares the triples; the full encoding stays in Obs).
+func coqToks(t [][]int64) string {
+	s := make([]string, len(t))
+	for i, x := range t {
+		canon := int64(1)
+		y := x
+		if len(x) >= 5 && x[1] == 3 {
+			canon = x[4]
+			y = x[:4]
+		}
+		h := uint64(1469598103934665603)
+		for _, v := range y {
+			h ^= uint64(v)
+			h *= 1099511628211
+			h ^= h >> 29
+		}
+		s[i] = zlist(x[0], int64(h>>2), canon)
+	}
+	return vh.CoqList(s)
+}
+
 func runMeta(c MetaCase) vh.Record {
-	return vh.Record{Case: vh.MustJSON(c), Coq: "TMeta [] []", Obs: "", Tags: []string{"meta"}}
+	ta, xa, sa := runOne(c.A)
+	tb, xb, sb := runOne(c.B)
+	strict := "sloppy"
+	if c.Strict {
+		strict = "strict"
+	}
+	cd := "codediff:no"
+	if sa != sb {
+		cd = "codediff:yes"
+	}
+	outcome := "normal"
+	if len(ta) > 0 {
+		switch ta[len(ta)-1][0] {
+		case 3:
+			outcome = "throw"
+		case 8:
+			outcome = "syntaxerror"
+		case 9:
+			outcome = "other"
+		}
+	}
+	tags := []string{"meta", "rw:" + c.Rewrite, "place:" + c.Place, strict, cd, "outcome:" + outcome}
+	for _, f := range c.Feat {
+		tags = append(tags, "feat:"+f)
+	}
+	obs := "A: " + xa + " || B: " + xb
+	if len(obs) > 1500 {
+		obs = obs[:1500]
+	}
+	return vh.Record{Case: vh.MustJSON(c), Coq: "TMeta " + coqToks(ta) + " " + coqToks(tb), Obs: obs, Tags: tags,
+		Nontrivial: sa != sb && len(ta) > 1}
 }
